@@ -116,6 +116,7 @@ def finish(prop, tier, seed, level, m, rule, t0, assumptions, floors=None, extra
         "known_findings_hit": dict(m.known_n),
         "inconclusive_reasons": m.inconclusive[:20],
     }
+    cov["floors"] = {name: [actual, minimum] for name, (actual, minimum) in floors.items()}
     if extra_cov:
         cov.update(extra_cov)
     for k, v in m.extra.items():
